@@ -67,6 +67,10 @@ def _xv_value(kind, enc, version=0):
         import numpy as np
         return (np.array([num, num + 1.0, num + 2.0]),
                 np.array([[num, num + 1.0], [num + 2.0, num + 3.0]]))
+    if kind == "arr3x2":
+        import numpy as np
+        return (np.array([num, num + 1.0, num + 2.0]),
+                np.array([num + 10.0, num + 11.0, num + 12.0]))
     if kind == "list":
         return [[num, num + 1.0], [num + 2.0, num + 3.0]]
     if kind == "dict":
@@ -75,6 +79,10 @@ def _xv_value(kind, enc, version=0):
         import xarray as xr
         return xr.Dataset({"v": ((), num), "w": (("t",), [num + 1.0, num + 2.0])},
                           coords={"t": [10, 20]})
+    if kind == "dataset_nc":
+        # internal dimension without coordinate (to be named by a constant)
+        import xarray as xr
+        return xr.Dataset({"v": ((), num), "w": (("t",), [num + 1.0, num + 2.0])})
     if kind == "dataarray":
         import xarray as xr
         return xr.DataArray([num, num + 1.0], dims=("t",),
@@ -85,6 +93,12 @@ def _xv_value(kind, enc, version=0):
 def _xv_call(name, kind, version, kw):
     import builtins, os
     enc = _xv_enc(kw)
+    if kind == "tstr":
+        # also encodes the *types* received (1, 1.0 and True are different
+        # requests although they compare equal)
+        enc = enc + "|" + ",".join(
+            "%s:%s" % (k, type(kw[k]).__name__) for k in sorted(kw))
+        kind = "str"
     log = getattr(builtins, "_xv_log", None)
     if log is not None:
         log.append((name, enc))
@@ -144,7 +158,14 @@ def make_fn(args, kind="num", name="xvfn", version=0, defaults=None,
     return fn
 
 
+def tenc(kw):
+    return enc(kw) + "|" + ",".join(
+        "%s:%s" % (k, type(kw[k]).__name__) for k in sorted(kw))
+
+
 def expected(kind, kw, version=0):
+    if kind == "tstr":
+        return value("str", tenc(kw), version)
     return value(kind, enc(kw), version)
 
 
